@@ -70,6 +70,18 @@ Toks ==
                off == n \div 256
            IN Split(SubSeq(base, 1, off) \o <<n % 256>> \o SubSeq(base, off + 1, Len(base)))
 
+(* The harness runs these REJECTED calls straight before every round trip it judges (harness/src/replay.rs, poison()):   *)
+(* each pushes as much as it can -- variants, attributes, types, tfield values, private tags -- before it fails, so that  *)
+(* anything a failed call leaves behind in the library (a scratch buffer that is drained on success only) lands in the     *)
+(* very next parse.  That every one of them is ill-formed is checked here, on the specification.                           *)
+PoisonLI  == { B("zz-Zzzz-ZZ-poisonv1-poisonv2-u"), B("zz-poisonv1-1xyz-!!"), B("zz-poisonv3-u-ca-gregory") }
+PoisonLoc == { B("zz-u-poisona1-poisona2-h0"), B("zz-u-ca-poisont1-!!"), B("zz-t-zz-poisonv4-h0-poisontv-!!"),
+               B("zz-t-h0-poisontv-!!"), B("zz-x-poisonp1-toolongpoison"), B("zz-poisonv5-poisonv6-u-!!") }
+PoisonExt == { B("u-poisona3-h0"), B("t-h0-poisontv-!!"), B("x-poisonp2-toolongpoison") }
+ASSUME /\ \A p \in PoisonLI : ~ParseLI(p).ok
+       /\ \A p \in PoisonLoc : ParseLoc(p).zone = "reject"
+       /\ \A p \in PoisonExt : ParseExt(p).zone = "reject"
+
 Kinds6 == {"variants", "attrs", "keywords", "tfields", "tags", "all", "odd", "types", "tvalues", "tlangvars", "anybyte"}
 (* us: every third separator is an underscore (the two separators must be    *)
 (* interchangeable at any length, C09 / C13)                                  *)
